@@ -94,7 +94,19 @@ def prepare(cfg):
     elif isinstance(b, list):
         opts['boolean_attributes'] = set(b)
     STATE['text'] = template_text()
-    STATE['tpl'] = PageTemplate(STATE['text'], **opts)
+    if cfg.get('compiled_after') is not None:
+        # the same source compiled first under another boolean-attribute configuration, both through one
+        # on-disk module cache
+        from vlib.cachepair import compile_through_one_cache
+        first = {}
+        if cfg['compiled_after'] == 'empty':
+            first['boolean_attributes'] = set()
+        elif isinstance(cfg['compiled_after'], list):
+            first['boolean_attributes'] = set(cfg['compiled_after'])
+        STATE['tpl'] = compile_through_one_cache([(PageTemplate, STATE['text'], first),
+                                                  (PageTemplate, STATE['text'], opts)])[1]
+    else:
+        STATE['tpl'] = PageTemplate(STATE['text'], **opts)
     for k in range(6):
         N[k] = 1
     for name, kind, slot in cfg['vars']:
